@@ -74,21 +74,18 @@ func leftovers(baseline map[int]bool, self int, pkgs []string, except map[string
 		if baseline[g.id] || g.id == self {
 			continue
 		}
-		for _, fn := range g.funcs {
-			if !strings.HasPrefix(fn, "github.com/DOSNetwork/core/") {
-				continue
+		b := entryBase(g)
+		if b == "" {
+			continue
+		}
+		ok := false
+		for _, p := range pkgs {
+			if strings.HasPrefix(b, p+".") {
+				ok = true
 			}
-			b := base(fn)
-			ok := false
-			for _, p := range pkgs {
-				if strings.HasPrefix(b, p+".") {
-					ok = true
-				}
-			}
-			if ok && !except[b] {
-				count[b]++
-			}
-			break
+		}
+		if ok && !except[b] {
+			count[b]++
 		}
 	}
 	var out []string
